@@ -130,7 +130,7 @@ ADDENDA = {
  "C17": "Also: boundary strings for booleans and integers ('0', 'true', ...). Concurrent parsing under the race detector, json tag options, embedded unexported structs. Alias lists with empty elements.",
  "C18": "Also: released names forgotten by their holders and collected (finalizers get to run), formats with prefixes of 120..1000 bytes. Ids above 256, statistical check that released ids are handed out again. Goroutines using other pools at the same time; histories that start just below 2^16 / 2^31 / 2^32 ids (the id counter is moved from the check, found by reflection).",
  "C19": "Also: capability descriptions (equal / empty), the same range under two comparers in one process, numeric pre-release identifiers of different digit counts (rc.2 < rc.10). Upper-case pre-release identifiers; versions with segments of several digits compared in every process in both directions.",
- "C20": "Also: answers of the very first calls of the process, 16/32 processes, every ASE level value -70000..70000 and around 2^16..2^62 (the two directions must be consistent). Every process of a run asks its first questions about a different level and in a different direction (answers must agree across processes); the exhaustive parts also run as a 32-bit (GOARCH=386) build. The texts of the returned errors are read (and wrapped) by the caller.",
+ "C20": "Also: answers of the very first calls of the process, 16/32 processes, every ASE level value -70000..70000 and around 2^16..2^62 (the two directions must be consistent). Every process of a run asks its first questions about a different level and in a different direction (answers must agree across processes); the exhaustive parts also run as a 32-bit (GOARCH=386) build. The texts of the returned errors are read (and wrapped) by the caller. 96 short-lived child processes per run (the test binary starts itself) must give the same answers as the process that started them.",
 }
 
 NOT_YET = "check not built yet in this round (planned, see DESIGN.md section 3)"
